@@ -190,16 +190,29 @@ def _account(ctx, facts, verdicts):
 
 # ------------------------------------------------------------------------------------------------ binding self-test
 def _seed_disagreements(facts, verdicts):
-    """copies of the facts with ONE realistic disagreement each, seeded into a declaration that agrees on this tree.
-    -> list of (label, mutated facts, (t, name), expected issue `what`, expected sub or None)"""
+    """a copy of the facts with realistic disagreements, each seeded into a different declaration that agrees on this tree.
+    -> (mutated facts, list of (label, (t, name), expected issue `what`, expected sub or None))"""
     out = []
-    clean_s = [s for s in facts["pystructs"] if not verdicts[("struct", s["name"])]["issues"]]
-    clean_f = [f for f in facts["funcs"] if not verdicts[("func", f["name"])]["issues"] and f["hasproto"] and f["argset"]]
+    used = set()
+    m = copy.deepcopy(facts)          # ONE copy carrying all seeds, each in a different declaration
+    all_s = [s for s in facts["pystructs"] if not verdicts[("struct", s["name"])]["issues"]]
+    all_f = [f for f in facts["funcs"] if not verdicts[("func", f["name"])]["issues"] and f["hasproto"] and f["argset"]]
+
+    class _Fresh:
+        """iterate over the agreeing declarations that carry no seed yet"""
+        def __init__(self, seq, t):
+            self.seq, self.t = seq, t
+
+        def __iter__(self):
+            return iter([x for x in self.seq if (self.t, x["name"]) not in used])
+    clean_s, clean_f = _Fresh(all_s, "struct"), _Fresh(all_f, "func")
 
     def mut(label, key, what, sub, fn):
-        m = copy.deepcopy(facts)
+        if key in used:
+            return
         if fn(m):
-            out.append((label, m, key, what, sub))
+            used.add(key)
+            out.append((label, key, what, sub))
 
     # 1 header: two same-typed neighbouring members swapped (only the names reveal it)
     for s in clean_s:
@@ -279,24 +292,25 @@ def _seed_disagreements(facts, verdicts):
             mut("signedness of python parameter %d of %s" % (idx[0] + 1, f["name"]), ("func", f["name"]), "param", None, sign)
             break
     # 9 the compiler's offset record corrupted: LayoutRule (the binding of the spec's rule to the real ABI) must notice
+    seeded_c = {verdicts[k]["pair"] for k in used if k[0] == "struct"}
     for c in facts["cstructs"]:
-        if len(c["fields"]) >= 2:
+        if len(c["fields"]) >= 2 and c["name"] not in seeded_c:
             def off(m, cn=c["name"]):
                 _byname(m["cstructs"], cn)["fields"][1]["off"] += 4
                 return True
             mut("compiler offset of C %s.%s corrupted" % (c["name"], c["fields"][1]["name"]), ("layout", c["name"]), "layout-rule", "field", off)
             break
-    return out
+    return m, out
 
 
 def _selftest(ctx, facts, verdicts, rd):
-    seeds = _seed_disagreements(facts, verdicts)
+    m, seeds = _seed_disagreements(facts, verdicts)
     if len(seeds) < 5:
         raise InfraError("binding self-test: only %d disagreements could be seeded (no agreeing declarations to seed into?)" % len(seeds))
+    v2, r2 = _judge(m, rd, only=[key for _, key, _, _ in seeds], tag="seeded")
+    ctx.add_tlc(r2, "abi_seeded")
     detected = []
-    for n, (label, m, key, what, sub) in enumerate(seeds):
-        v2, r2 = _judge(m, rd, only=key, tag="seed%d" % n)
-        ctx.add_tlc(r2, None)
+    for label, key, what, sub in seeds:
         iss = v2.get(key, {}).get("issues", [])
         if not any(i["what"] == what and (sub is None or i.get("sub") == sub) for i in iss):
             raise InfraError("binding lost: seeded disagreement '%s' in %s was not reported by Abi.tla (issues: %s)" % (label, key, iss))
